@@ -136,6 +136,10 @@ func (d *Decoder) decodeOBUs(pkt *rtp.Packet) ([][]byte, error) {
 		d.resetFragments()
 	} else {
 		d.firstPacketReceived = true
+
+		// fragments of an OBU that was never completed
+		// must not leak into the next fragmented OBU.
+		d.resetFragments()
 	}
 
 	// last OBU will continue in next packet
